@@ -60,6 +60,7 @@ def build(schema):
         return _built[key]
     sqlo.setup()
     from sqlobject import SQLObject, ForeignKey, IntCol, RelatedJoin, SQLRelatedJoin, MultipleJoin, SQLMultipleJoin, SingleJoin
+    from sqlobject.joins import ManyToMany, OneToMany
     reg = sqlo.uniq('c13reg')
     conn = sqlo.mem_conn()
     classes = schema['classes']
@@ -76,6 +77,10 @@ def build(schema):
             d[acc['name'] + 'l'] = MultipleJoin(NAMES[acc['k']], joinColumn=col, orderBy=ob)
             d[acc['name'] + 'q'] = SQLMultipleJoin(NAMES[acc['k']], joinColumn=col, orderBy=ob)
             d[acc['name'] + 's'] = SingleJoin(NAMES[acc['k']], joinColumn=col)
+            if acc['k'] >= acc['cls']:
+                # new-style one-to-many; SOOneToMany needs the other class to be declared later than (or be) the
+                # declaring one: it builds `soClass.q` as soon as the other class is known
+                d[acc['name'] + 'n'] = OneToMany(NAMES[acc['k']], joinColumn=col)
         else:
             kw = {}
             if not acc['default_names']:
@@ -85,6 +90,7 @@ def build(schema):
                                                createRelatedTable=False, **kw)
             d[acc['name'] + 'q'] = SQLRelatedJoin(NAMES[acc['other']], orderBy=ob, addRemoveName=acc['name'].upper() + 'Q',
                                                   createRelatedTable=False, **kw)
+            d[acc['name'] + 'n'] = ManyToMany(NAMES[acc['other']], createJoinTable=False, **kw)   # new-style many-to-many
     out = [type(NAMES[k], (SQLObject,), dicts[k]) for k in range(len(classes))]
     for cls in out:
         cls.createTable()
@@ -176,13 +182,18 @@ def gen_history(rng, schema, length):
             if not live[a['cls']] or not live[a['other']]:
                 continue
             op = 'add' if rng.random() < 0.62 else 'rem'
-            ops.append([op, a['name'], rng.choice(live[a['cls']]), rng.choice(live[a['other']]), rng.random() < 0.3])
+            ops.append([op, a['name'], rng.choice(live[a['cls']]), rng.choice(live[a['other']]), rng.choice(['l', 'l', 'q', 'n', 'n'])])
         else:
             k = rng.choice([k for k in range(n) if live[k]])
             i = rng.choice(live[k])
             ops.append(['del', k, i])
             # which ids survive is only known after running; the runner filters stale ids
     return ops
+
+
+def mline_plain(mline):
+    """the model request of an accessor without its ordering keys (new-style joins have no orderBy)"""
+    return ' '.join(t for t in mline.split() if not (t[0] in 'ad' and t[1:].isdigit()))
 
 
 def key_line(keys):
@@ -231,9 +242,13 @@ class Runner:
                     return None, None
                 obj = self.classes[acc['cls']].get(a)
                 other = self.classes[acc['other']].get(b)
-                meth = ('add' if op[0] == 'add' else 'remove') + name.upper() + ('Q' if via_q else '')
-                getattr(obj, meth)(other)
-                return '%s %d %d %d %d' % (op[0], acc['t'], acc['own'], a, b), 'ok'
+                flavour = via_q if isinstance(via_q, str) else ('q' if via_q else 'l')
+                if flavour == 'n':      # the new-style ManyToMany wrapper
+                    getattr(getattr(obj, name + 'n'), 'add' if op[0] == 'add' else 'remove')(other)
+                else:
+                    meth = ('add' if op[0] == 'add' else 'remove') + name.upper() + ('Q' if flavour == 'q' else '')
+                    getattr(obj, meth)(other)
+                return '%s%s %d %d %d %d' % (op[0], 'n' if flavour == 'n' else '', acc['t'], acc['own'], a, b), 'ok'
             if op[0] == 'del':
                 _, k, i = op
                 if (k, i) not in live:
@@ -258,6 +273,7 @@ class Runner:
         """all accessors of all live objects: returns [(model line, kind, impl ids)], runs the oracle"""
         out = []
         got = {}
+        got_new = {}
         live = self.live()
         for acc in self.schema['accessors']:
             for (k, i) in live:
@@ -267,6 +283,7 @@ class Runner:
                 try:
                     lst = [o.id for o in getattr(obj, acc['name'] + 'l')]
                     qry = [o.id for o in getattr(obj, acc['name'] + 'q')]
+                    new = [o.id for o in getattr(obj, acc['name'] + 'n')] if hasattr(type(obj), acc['name'] + 'n') else None
                 except Exception as e:
                     ctx.oracle_fail('C13:accessor-raises:%s' % sqlo.exc_name(e), 'accessor %s of %s %d raised %r' % (acc['name'], NAMES[k], i, e), case)
                     continue
@@ -287,8 +304,15 @@ class Runner:
                     mline = 'r %d %d %d %d%s' % (acc['t'], acc['own'], i, other, key_line(acc['order']))
                 got[(acc['name'], k, i)] = lst
                 self.judge(ctx, case, acc, (k, i), other, lst, qry, raw)
+                if new is not None and Counter(new) != Counter(raw):
+                    ctx.oracle_fail('C13:new-style-accessor-vs-relation', '%s (%s) of %s %d returns %r, the stored relation holds %r'
+                                    % (acc['name'] + 'n', 'OneToMany' if acc['kind'] == 'fk' else 'ManyToMany', NAMES[k], i, new, raw), case)
                 out.append((mline, 'list', 'ids' + ''.join(' %d' % x for x in lst)))
                 out.append((mline, 'query', 'ids' + ''.join(' %d' % x for x in sorted(qry))))
+                if new is not None:
+                    got_new[(acc['name'], k, i)] = new
+                    nline = mline_plain(mline) if acc['kind'] == 'fk' else 'n %d %d %d' % (acc['t'], acc['own'], i)
+                    out.append((nline, 'new', 'ids' + ''.join(' %d' % x for x in sorted(new))))
         # symmetry of the two declared sides of a link table
         rel = [a for a in self.schema['accessors'] if a['kind'] == 'rel']
         for a in rel:
@@ -302,6 +326,11 @@ class Runner:
                                 continue
                             n1 = got.get((a['name'], k, i), []).count(j)
                             n2 = got.get((b['name'], k2, j), []).count(i)
+                            m1 = got_new.get((a['name'], k, i), []).count(j)
+                            m2 = got_new.get((b['name'], k2, j), []).count(i)
+                            if m1 != m2:
+                                ctx.oracle_fail('C13:asymmetric-new-style', '%s %d has %s %d %d times among its ManyToMany partners, the reverse side %d times'
+                                                % (NAMES[k], i, NAMES[k2], j, m1, m2), case)
                             if n1 != n2:
                                 ctx.oracle_fail('C13:asymmetric', '%s %d has %s %d %d times among its partners, the reverse side %d times'
                                                 % (NAMES[k], i, NAMES[k2], j, n1, n2), case)
@@ -403,6 +432,10 @@ def run(ctx):
             toks = o.split()
             o = 'ids' + ''.join(' %d' % x for x in sorted(int(t) for t in toks[1:])) if toks and toks[0] == 'ids' else o
             ctx.compare('query-flavoured accessor (as a multiset): model = real', {'line': line, 'case': case}, o, impl)
+        elif kind == 'new':
+            toks = o.split()
+            o = 'ids' + ''.join(' %d' % x for x in sorted(int(t) for t in toks[1:])) if toks and toks[0] == 'ids' else o
+            ctx.compare('new-style ManyToMany / OneToMany accessor (as a multiset): model = real', {'line': line, 'case': case}, o, impl)
         elif kind == 'list':
             ctx.compare('list-flavoured accessor (exact order): model = real', {'line': line, 'case': case}, o, impl)
         elif kind == 'single':
